@@ -161,7 +161,7 @@ def expr_type(e, sch: Sch) -> Tuple[str, bool]:
         if ta not in NUM or tb not in NUM:
             raise TypeErr(op)
         return ("int" if ta == tb == "int" else "float"), (na or nb)
-    if op == "/":
+    if op in ("/", "**", "%/%"):
         (ta, na), (tb, nb) = ts
         return "float", (na or nb)
     if op in CMP:
